@@ -28,6 +28,9 @@ def render(spec, prologue="", epilogue="", union=None, actions=None, tags=None):
         else:
             out.append("%union {\n" + union + "\n}\n")
     tags = tags or {}
+    # terms whose value tag arrives in a LATER %token line of its own (after the number, after the precedence line that
+    # first mentions it): `%token NUM 300 … %token <val> NUM`, `%left '+' … %token <op> '+'`
+    late = [t for t in spec.get("late_tags", []) if t in tags and not spec.get("token_groups")]
     if spec.get("token_groups"):
         # several tokens on one %token line (they share the line's tag); a number belongs to the token before it
         for grp in spec["token_groups"]:
@@ -36,7 +39,7 @@ def render(spec, prologue="", epilogue="", union=None, actions=None, tags=None):
     else:
         for t in spec["tokens"]:
             num = spec.get("nums", {}).get(t)
-            tg = "<%s> " % tags[t] if t in tags else ""
+            tg = "<%s> " % tags[t] if (t in tags and t not in late) else ""
             out.append("%%token %s%s%s\n" % (tg, t, (" %d" % num) if num else ""))
     if spec.get("eof_token"):
         out.append("%token EOF -1\n")        # the documented alias of the end marker (examples/e.y); not a grammar symbol
@@ -44,13 +47,15 @@ def render(spec, prologue="", epilogue="", union=None, actions=None, tags=None):
         # a later declaration that adds the number (and possibly a tag)
         out.append("%%token %s%s %d\n" % ("<%s> " % spec["redecl_tag"] if spec.get("redecl_tag") else "", t, num))
     for lit in spec["lits"]:
-        if lit in tags:
+        if lit in tags and lit not in late:
             out.append("%%token <%s> %s\n" % (tags[lit], lit))
     for nt in spec["nts"]:
         if nt in tags:
             out.append("%%type <%s> %s\n" % (tags[nt], nt))
     for kind, syms in spec.get("prec", []):
         out.append("%%%s %s\n" % (kind, " ".join(syms)))
+    for t in late:
+        out.append("%%token <%s> %s\n" % (tags[t], t))
     out.append("%%start %s\n%%%%\n" % spec["start"])
     last = None
     for i, r in enumerate(spec["rules"]):
@@ -404,7 +409,13 @@ def x_inputs(spec, rng, max_len=3, n_sent=10, cap=250):
         if s is None:
             continue
         # mutations may also insert 'y' / 'x': codes just above the largest token code
-        for cand in (s, _mutate(s, letters + (["y", "x", "w"] if n < 22 else []), rng)):
+        cands = [s, _mutate(s, letters + (["y", "x", "w", "v"] if n < 21 else []), rng)]
+        if n < 21:
+            # an unknown code directly after a complete sentence (where taking it for the end marker would accept),
+            # and after a proper prefix of it
+            u = rng.choice("vwxyz")
+            cands += [s + u, s[:rng.randrange(len(s) + 1)] + u]
+        for cand in cands:
             if cand not in seen:
                 seen.add(cand)
                 out.append(cand)
@@ -446,6 +457,8 @@ def file_spec(rng, small=False):
     # tokens that are declared ONLY by a precedence line (no %token line): untagged, un-numbered ones
     fs["only_prec"] = [t for t in sp["tokens"] if t not in fs["tags"] and t not in fs["nums"]
                        and any(t in ss for _, ss in sp["prec"]) and rng.random() < 0.5]
+    fs["group_tokens"] = rng.random() < 0.5
+    fs["late_tags"] = [t for t in terms if t in fs["tags"] and rng.random() < 0.3]
     fs["prologue"] = rng.choice(["package p\nimport \"fmt\"\n", "package p\n// c\nimport \"fmt\"\nvar x = 1 % 2\n", "\n package   q \n"])
     fs["union"] = rng.choice([" val int\n str string\n", "val int; str string", "\n\tval int\n\tstr struct{ a int }\n"])
     fs["epilogue"] = rng.choice(["", "\n", "\nfunc GetToken() {}\n", "func f() { /* %% */ }\n// tail"])
@@ -479,17 +492,28 @@ def file_tokens(fs):
     add("{" + fs["union"] + "}", True)
     # a directive word may be followed directly by anything that is not a letter (`%left'+'`, `%token<val>`);
     # render_file/needs_sep keep a separator where the next token starts with a word character
-    for t in fs["tokens"]:
-        if t in fs.get("only_prec", []):
-            continue
+    declared = [t for t in fs["tokens"] if t not in fs.get("only_prec", [])]
+    if fs.get("group_tokens"):
+        # several names on one %token line (same tag), explicit numbers anywhere among them: `%token <val> A 300 B C 5`
+        groups = []
+        for t in declared:
+            if groups and fs["tags"].get(groups[-1][0]) == fs["tags"].get(t):
+                groups[-1].append(t)
+            else:
+                groups.append([t])
+    else:
+        groups = [[t] for t in declared]
+    late = [t for t in fs.get("late_tags", []) if t in fs["tags"] and not fs.get("group_tokens")]
+    for grp in groups:
         add("%token", True)
-        if t in fs["tags"]:
-            add("<", True); add(fs["tags"][t], True); add(">", True)
-        add(t)
-        if t in fs["nums"]:
-            add(str(fs["nums"][t]))
+        if grp[0] in fs["tags"] and grp[0] not in late:
+            add("<", True); add(fs["tags"][grp[0]], True); add(">", True)
+        for t in grp:
+            add(t)
+            if t in fs["nums"]:
+                add(str(fs["nums"][t]))
     for l in fs["lits"]:
-        if l in fs["tags"]:
+        if l in fs["tags"] and l not in late:
             add("%token", True); add("<", True); add(fs["tags"][l], True); add(">", True); add(l, True)
     for n in fs["nts"]:
         if n in fs["tags"]:
@@ -498,6 +522,8 @@ def file_tokens(fs):
         add("%" + kind, True)
         for s in syms:
             add(s, s.startswith("'"))
+    for t in late:
+        add("%token", True); add("<", True); add(fs["tags"][t], True); add(">", True); add(t, t.startswith("'"))
     add("%start"); add(fs["start"])
     add("%%", True)
     last = None
